@@ -12,15 +12,15 @@ trap cleanup EXIT
 cd "$WT" || exit 3
 DEMO=$(ls "$SRC" | grep -v -e patch.diff -e meta.json | head -1)
 DEMOCMD=$(python3 -c "import json;print(json.load(open('$SRC/meta.json')).get('demo_cmd',''))")
-PKG=$(echo "$DEMOCMD" | grep -o '\./[a-z]*/ *$' | tr -d ' ' | tail -1)
-[ -z "$PKG" ] && PKG=$(echo "$DEMOCMD" | grep -o '\./[a-z]*/' | tail -1)
+PKG=$(echo "$DEMOCMD" | grep -o '\./[a-z0-9_]*/ *$' | tr -d ' ' | tail -1)
+[ -z "$PKG" ] && PKG=$(echo "$DEMOCMD" | grep -o '\./[a-z0-9_]*/' | tail -1)
 RUN=$(echo "$DEMOCMD" | tr -d "'\"" | grep -o '\-run [A-Za-z0-9_|]*' | tail -1)
 TAGS=""; echo "$DEMOCMD" | grep -q 'tags verif' && TAGS="-tags verif"
 echo "$DEMOCMD" | grep -q -e ' -race' && TAGS="$TAGS -race"
 res() { echo "$1" >> "$WT/.confirm.log"; echo "$1"; }
 : > "$WT/.confirm.log"
 # demo without the change
-cp "$SRC/$DEMO" "$WT/$PKG/zz_seeded_demo_test.go"
+mkdir -p "$WT/$PKG"; cp "$SRC/$DEMO" "$WT/$PKG/zz_seeded_demo_test.go"
 go test $TAGS -vet=off -count=1 $RUN $PKG > "$WT/.demo_clean.out" 2>&1; DC=$?
 res "demo on clean tree: exit $DC (expected 0)"
 git apply --3way "$SRC/patch.diff" 2>/dev/null || git apply "$SRC/patch.diff" || { res "patch does not apply"; exit 4; }
